@@ -148,6 +148,19 @@ func c09(c *Ctx) {
 			}
 		}
 		r.Check(n > 0 && okSame, "C09.L1", fi.Name(), "skips stable-store keys by the same prefix", c.P.Pos(fi.Node().Pos()), "bytes.HasPrefix(key, []byte(\""+stablePrefix+"\"))", "the scan does not skip stable-store keys (or uses a different prefix): a stable-store key is decoded as a log index")
+		// … and skips all of them: the prefix test is a loop condition
+		inLoop := 0
+		ast.Inspect(fi.Body(), func(nd ast.Node) bool {
+			if fs, ok := nd.(*ast.ForStmt); ok && fs.Cond != nil {
+				for _, call := range astx.Calls(fs.Cond, false) {
+					if fn := astx.Callee(info, call); fn != nil && isFunc(fn, "bytes", "HasPrefix") {
+						inLoop++
+					}
+				}
+			}
+			return true
+		})
+		r.Check(inLoop == n && n > 0, "C09.L1", fi.Name(), "skips every stable-store key, not just one", c.P.Pos(fi.Node().Pos()), "prefix test is the condition of a for loop", "the scan tests the stable-store prefix once instead of looping: with two or more stable-store keys next to the log entries the second one is decoded as a log index")
 	}
 	// FirstIndex / LastIndex shape
 	for _, spec := range []struct{ name, start, step string }{{"FirstIndex", "First", "Next"}, {"LastIndex", "Last", "Prev"}} {
